@@ -87,8 +87,8 @@ func init() {
 		Old: "\t\treturn errors.New(\"hash verification failed\")\n\t}\n\treturn nil", New: "\t\t_ = errors.New(\"hash verification failed\")\n\t}\n\treturn nil",
 		Expect: "mismatch-is-error"})
 	addWitness(witness{Prop: "C03", Name: "put-clobbers-write-error", File: "pkg/storage/localfs/store.go",
-		Old:    "\t\t\tif e := target.Close(); e != nil {\n\t\t\t\tl.l.Error(\"write error, retrying\",\n\t\t\t\t\tzap.String(\"key\", key),\n\t\t\t\t\tzap.Error(e),\n\t\t\t\t)\n\t\t\t\tif err == nil {\n\t\t\t\t\t// do not mask a write error by the outcome of Close\n\t\t\t\t\terr = e\n\t\t\t\t}\n\t\t\t}\n\n\t\t\treturn err\n\t\t}\n\t\terr = backoff.Retry(operation, retryPolicy)\n\t\tif err != nil {\n\t\t\treturn fmt.Errorf(\"write record for %q: %v\", key, err)\n\t\t}\n\t} else {",
-		New:    "\t\t\terr = target.Close()\n\t\t\tif err != nil {\n\t\t\t\tl.l.Error(\"write error, retrying\",\n\t\t\t\t\tzap.String(\"key\", key),\n\t\t\t\t\tzap.Error(err),\n\t\t\t\t)\n\t\t\t}\n\n\t\t\treturn err\n\t\t}\n\t\terr = backoff.Retry(operation, retryPolicy)\n\t\tif err != nil {\n\t\t\treturn fmt.Errorf(\"write record for %q: %v\", key, err)\n\t\t}\n\t} else {",
+		Old:    "\t\t\tif e := target.Close(); e != nil {\n\t\t\t\tl.l.Error(\"write error, retrying\",\n\t\t\t\t\tzap.String(\"key\", key),\n\t\t\t\t\tzap.Error(e),\n\t\t\t\t)\n\t\t\t\tif err == nil {\n\t\t\t\t\t// do not mask a write error by the outcome of Close\n\t\t\t\t\terr = e\n\t\t\t\t}\n\t\t\t}\n\n\t\t\terr = commit(err)\n\t\t\treturn err\n\t\t}\n\t\terr = backoff.Retry(operation, retryPolicy)\n\t\tif err != nil {\n\t\t\treturn fmt.Errorf(\"write record for %q: %v\", key, err)\n\t\t}\n\t} else {",
+		New:    "\t\t\terr = target.Close()\n\t\t\tif err != nil {\n\t\t\t\tl.l.Error(\"write error, retrying\",\n\t\t\t\t\tzap.String(\"key\", key),\n\t\t\t\t\tzap.Error(err),\n\t\t\t\t)\n\t\t\t}\n\n\t\t\terr = commit(err)\n\t\t\treturn err\n\t\t}\n\t\terr = backoff.Retry(operation, retryPolicy)\n\t\tif err != nil {\n\t\t\treturn fmt.Errorf(\"write record for %q: %v\", key, err)\n\t\t}\n\t} else {",
 		Expect: "errors-surface"})
 	addWitness(witness{Prop: "C03", Name: "download-absorbs-put-error", File: "pkg/core/bundle_unpack.go",
 		Old:    "\t\tbundle.l.Error(\"Failed to download bundle entry: put to store\",\n\t\t\tzap.String(\"name\", bundleEntry.NameWithPath),\n\t\t\tzap.Error(err))\n\t\treturn err",
@@ -264,6 +264,7 @@ func runC01(c *Ctx) {
 	checkWriterChannelsUnbuffered(c, "flush-order.channels-unbuffered")
 	checkNoStreamInRetry(c, "read.no-stream-in-retry", "pkg/cafs")
 	checkShortReadIsNotEOF(c, "read.short-read-not-eof")
+	checkBlobPutsIdempotent(c, "dedup.blob-puts-idempotent")
 }
 
 // checkWriterHandoff: ownership of the buffer given to `go pFlush`.
